@@ -130,11 +130,18 @@ def dict_build(term, events):
     if term[0] == "new" and term[2] == "dict":
         entries, over, lid = [], None, None
         for ev, ctx in walk(events):
+            stores = []
             if isinstance(ev, ir.SubStore) and ev.cont == term:
-                entries.append((ev.key, ev.value, ctx, ev))
-                if ev.key[0] == "elem":
+                stores.append((ev.key, ev.value))
+            elif isinstance(ev, ir.Mut) and ev.recv == term and ev.method == "update" and len(ev.args) == 1 and \
+                    not ev.kwargs and ev.args[0][0] == "new" and ev.args[0][2] == "dict" and \
+                    all(i[0] == "kv" for i in ev.args[0][3]):
+                stores.extend((i[1], i[2]) for i in ev.args[0][3])      # acc.update({k: v, ...})
+            for key, value in stores:
+                entries.append((key, value, ctx, ev))
+                if key[0] == "elem":
                     for l in ctx.loops:
-                        if l.lid == ev.key[1]:
+                        if l.lid == key[1]:
                             over, lid = l.iter, l.lid
         return DictBuild(term, entries, over, lid, "accum", term[3])
     return None
